@@ -1,5 +1,5 @@
 /-
-  FsModel.Ftp — FTPFS as coded (fs/ftpfs.py, after the eight `fix:` commits eb5521d..d004144) together
+  FsModel.Ftp — FTPFS as coded (fs/ftpfs.py, after the `fix:` commits eb5521d..d004144 and 79535c4) together
   with the base-class defaults it inherits (fs/base.py), as PROGRAMS over the commands of an FTP
   server (`FsModel.FtpServer.Cmd`).
 
@@ -10,7 +10,7 @@
   What is transcribed, method by method: `_parse_features` / `supports_mlst` (C20's `parseFeatures` on
   the FEAT reply), `ftp_errors.__exit__` (`ftpErrors`), `validatepath` with `"\0\r\n"`, `_read_dir`
   (LIST → C20's `FtpParse.parse` → `OrderedDict`), `getinfo` (root special case; `MLST` when the
-  server offers it — the reply cut with `str.splitlines()[1:-1]` and parsed by C20's `parseMlsx` —
+  server offers it — the reply cut with `split("\n")[1:-1]` (79535c4) and parsed by C20's `parseMlsx` —
   else / when that yields nothing: is the parent a directory, list it, look the name up), `scandir` /
   `_scandir` (MLSD, falling through to LIST when no line came back; 5xx → `getinfo(path).is_dir`),
   `listdir`, `makedir` (the recreate logic and the 550 analysis), `openbin` (mode first; create /
@@ -149,8 +149,9 @@ def readDir (cy : Nat) (cs : List Name) : Prog (Res (List Ent)) :=
 def mlstInfo (cs : List Name) : Prog (Option (Res Ent)) :=
   .cmd (.mlst cs) fun r => match r with
     | .ok _ text =>
-      -- `lines = response.splitlines()[1:-1]`, then the first entry `_parse_mlsx` yields
-      (match parseMlsx ((splitlines text).drop 1).dropLast with
+      -- `lines = response.split("\n")[1:-1]` (79535c4: `ftplib` joins the lines of a reply with `\n`; no
+      -- longer `splitlines()`), then the first entry `_parse_mlsx` yields
+      (match parseMlsx ((splitOn '\n' text).drop 1).dropLast with
        | .ok (i :: _) => .ret (some (.ok (mlsxEnt i)))
        | .ok [] => .ret none
        | .err e => .ret (some (.err e)))
